@@ -723,7 +723,7 @@ class Link(SimComponent):
     def endpoint_down(self):
         """Let the Link know and endpoint has been brought down."""
         if not self.is_up:
-            self.current_load = 0.0
+            # the data already carried in this tick stays accounted; the load restarts at the next tick
             _LOGGER.debug(f"Link {self} down")
 
     @property
